@@ -32,6 +32,31 @@ const smallSchema = `{"$ref":"#/definitions/Root","definitions":{
 "K":{"type":"string","const":"kk"}}}
 `
 
+// oddValuesSchema is the small schema with constants, defaults and enum values
+// whose JSON type is not the one their schema type calls for (the front-end
+// stores them as they are: json.Number, string, bool, nil, []any, map).
+const oddValuesSchema = `{"$ref":"#/definitions/Root","definitions":{
+"Root":{"type":"object","required":["name","s"],"properties":{
+  "name":{"type":"string","default":3},
+  "flag":{"type":"boolean","default":"yes"},
+  "count":{"type":"integer","default":"many"},
+  "ratio":{"type":"number","default":true},
+  "tags":{"type":"array","items":{"type":"string"},"default":{"a":1}},
+  "labels":{"type":"object","additionalProperties":{"type":"string"},"default":[1]},
+  "inner":{"type":"object","properties":{"a":{"type":"string","const":1.5}},"default":"x"},
+  "e":{"$ref":"#/definitions/E"},
+  "u":{"oneOf":[{"$ref":"#/definitions/S"},{"$ref":"#/definitions/T"}],"default":3},
+  "v":{"oneOf":[{"type":"string"},{"type":"boolean"}],"default":{"a":[1]}},
+  "s":{"$ref":"#/definitions/S"},
+  "k":{"$ref":"#/definitions/K"},
+  "n":{"type":"integer","const":"seven"},
+  "b":{"type":"boolean","const":0}}},
+"S":{"type":"object","required":["kind"],"properties":{"kind":{"type":"string","const":1},"x":{"type":"string"}}},
+"T":{"type":"object","required":["kind"],"properties":{"kind":{"type":"string","const":2},"y":{"type":"integer"}}},
+"E":{"enum":["a",1,null,true,{"a":1}]},
+"K":{"type":"string","const":3}}}
+`
+
 // the objects and the options of builder Root (targets for the rule × target products)
 var (
 	smallObjects = []string{"Root", "S", "T", "E", "K", "Missing"}
@@ -546,6 +571,20 @@ func configSpace(thorough bool) (cases []configCase, templates []configCase) {
 			add("passes/"+t.Name+" @ "+s.Path+" := "+s.Value, configFiles(plainPipe, s.Text, noVeneers), s.Text)
 		}
 	}
+	// every pass on the schema whose values have the "wrong" Go type for their kind
+	oddFiles := func(passes string) map[string]string {
+		f := configFiles(plainPipe, passes, noVeneers)
+		f["p.json"] = oddValuesSchema
+		return f
+	}
+	add("passes/none on odd-values schema", oddFiles(noPasses), noPasses)
+	for _, t := range passTemplates {
+		add("passes/"+t.Name+" on odd-values schema", oddFiles(t.YAML), t.YAML)
+	}
+	for _, o := range smallObjects {
+		doc := `passes: [{constant_to_enum: {objects: [p.` + o + `]}}]`
+		add("passes/constant_to_enum object := "+o+" on odd-values schema", oddFiles(doc), doc)
+	}
 	for _, as := range asTypes {
 		for _, tpl := range []struct{ name, yaml string }{
 			{"retype_object", `passes: [{retype_object: {object: p.S, as: %s}}]`},
@@ -573,7 +612,10 @@ func configSpace(thorough bool) (cases []configCase, templates []configCase) {
 	for _, f := range rootOptions {
 		for _, tpl := range []struct{ name, yaml string }{
 			{"name_anonymous_struct", `passes: [{name_anonymous_struct: {field: p.Root.%s, as: S}}]`}, {"fields_set_default", `passes: [{fields_set_default: {defaults: {p.Root.%s: [1, {a: b}]}}}]`},
-			{"fields_set_default.null", `passes: [{fields_set_default: {defaults: {p.Root.%s: null}}}]`}, {"retype_field.self", `passes: [{retype_field: {field: p.Root.%s, as: {kind: ref, ref: {referred_pkg: p, referred_type: Root}}}}]`},
+			{"fields_set_default.null", `passes: [{fields_set_default: {defaults: {p.Root.%s: null}}}]`},
+			{"fields_set_default.map", `passes: [{fields_set_default: {defaults: {p.Root.%s: {a: 1}}}}]`}, {"fields_set_default.int", `passes: [{fields_set_default: {defaults: {p.Root.%s: 3}}}]`},
+			{"fields_set_default.string", `passes: [{fields_set_default: {defaults: {p.Root.%s: s}}}]`}, {"fields_set_default.bool", `passes: [{fields_set_default: {defaults: {p.Root.%s: true}}}]`},
+			{"fields_set_default.float", `passes: [{fields_set_default: {defaults: {p.Root.%s: 1.5}}}]`}, {"fields_set_default.uint64", `passes: [{fields_set_default: {defaults: {p.Root.%s: 18446744073709551615}}}]`}, {"retype_field.self", `passes: [{retype_field: {field: p.Root.%s, as: {kind: ref, ref: {referred_pkg: p, referred_type: Root}}}}]`},
 			{"omit_fields", `passes: [{omit_fields: {fields: [p.Root.%s]}}]`}, {"fields_set_required", `passes: [{fields_set_required: {fields: [p.Root.%s, p.Root.%[1]s]}}]`},
 		} {
 			doc := fmt.Sprintf(tpl.yaml, f)
